@@ -329,6 +329,12 @@ def annotate_fn(unit, src, it, fnq, a: A, em: Emitter, canary=None):
             inv = norm_clauses(spec.get('invariant'))
             if spec.get('raw'):
                 em.insert_before_tok(lb, '\n' + spec['raw'] + '\n')
+            if spec.get('invariant_except_break'):
+                em.insert_before_tok(lb, '\n    invariant_except_break\n')
+                for n, t, pp in norm_clauses(spec['invariant_except_break']):
+                    em.insert_before_tok(lb, '        ')
+                    em.insert_before_tok(lb, Clause(fnq, f'invariant[{kidx}]', n, t, pp))
+                    em.insert_before_tok(lb, ',\n')
             if inv:
                 em.insert_before_tok(lb, '\n    invariant\n')
                 for n, t, pp in inv:
